@@ -7,7 +7,9 @@ package c26
 import (
 	"fmt"
 	"hash/fnv"
+	"io"
 	"math"
+	"net"
 	"os"
 	"path/filepath"
 	"runtime"
@@ -69,6 +71,26 @@ func (s *server) stop() {
 	case s.sig <- os.Interrupt:
 	default:
 	}
+}
+
+// waitClients waits for the client goroutines. If they do not finish (a
+// call never returns), the case is inconclusive: the daemon is told to stop,
+// which closes every connection and releases the blocked calls.
+func waitClients(c *mon.Case, wg *sync.WaitGroup, srv *server, d time.Duration) bool {
+	done := make(chan struct{})
+	go func() { wg.Wait(); close(done) }()
+	select {
+	case <-done:
+		return true
+	case <-time.After(d):
+	}
+	c.Inconclusive("clients-stuck")
+	srv.stop()
+	select {
+	case <-done:
+	case <-time.After(60 * time.Second):
+	}
+	return false
 }
 
 // ---------------------------------------------------------------------------
@@ -436,7 +458,10 @@ func runShort(c *mon.Case) {
 		}(i+1, cl, scripts[i], own)
 	}
 	close(start)
-	wg.Wait()
+	if !waitClients(c, &wg, srv, 90*time.Second) {
+		srv.wait()
+		return
+	}
 	if shared != nil {
 		sharedWg.Wait()
 		shared.Close()
@@ -513,7 +538,71 @@ type longClient struct {
 	acked []int // own acknowledged, not yet deleted seqs
 }
 
-func runLong(c *mon.Case, restart bool) {
+// proxy forwards unix-socket connections to the daemon and can lose a reply:
+// when armed, the next bytes travelling from the daemon to a client are
+// dropped and that connection is closed on both sides, i.e. the request was
+// executed but its reply never arrives (a broken connection).
+type proxy struct {
+	ln     net.Listener
+	target string
+	armed  atomic.Int32
+	cuts   atomic.Int64
+}
+
+func startProxy(path, target string) (*proxy, error) {
+	ln, err := net.Listen("unix", path)
+	if err != nil {
+		return nil, err
+	}
+	p := &proxy{ln: ln, target: target}
+	go func() {
+		for {
+			cl, err := ln.Accept()
+			if err != nil {
+				return
+			}
+			go p.handle(cl)
+		}
+	}()
+	return p, nil
+}
+
+func (p *proxy) handle(cl net.Conn) {
+	sv, err := net.Dial("unix", p.target)
+	if err != nil {
+		cl.Close()
+		return
+	}
+	go func() {
+		io.Copy(sv, cl)
+		sv.Close()
+		cl.Close()
+	}()
+	buf := make([]byte, 64<<10)
+	for {
+		n, err := sv.Read(buf)
+		if n > 0 {
+			if p.armed.CompareAndSwap(1, 0) {
+				p.cuts.Add(1)
+				break
+			}
+			if _, werr := cl.Write(buf[:n]); werr != nil {
+				break
+			}
+		}
+		if err != nil {
+			break
+		}
+	}
+	cl.Close()
+	sv.Close()
+}
+
+// runLong: mode is "long", "restart" (daemon interrupted and restarted) or
+// "cut" (replies lost on the way back).
+func runLong(c *mon.Case, mode string) {
+	restart := mode == "restart"
+	cut := mode == "cut"
 	r := c.Rand
 	procs := []int{2, 4, 8, 16}[r.Intn(4)]
 	defer runtime.GOMAXPROCS(runtime.GOMAXPROCS(procs))
@@ -533,14 +622,29 @@ func runLong(c *mon.Case, restart bool) {
 		srv.wait()
 		return
 	}
+	clientSock := sock
+	var px *proxy
+	if cut {
+		clientSock = sock + "p"
+		defer os.Remove(clientSock)
+		var err error
+		px, err = startProxy(clientSock, sock)
+		if err != nil {
+			c.Inconclusive("proxy-cannot-listen")
+			keeper.Close()
+			srv.wait()
+			return
+		}
+		defer px.ln.Close()
+	}
 	nlog := 4 + r.Intn(5)
 	total := c.Env.Pick(4000, 6000)
-	if restart {
+	if restart || cut {
 		total = 1500
 	}
 	per := total / nlog
 	nshare := 0
-	if !restart { // a restarted daemon makes the client re-dial, which is documented as not goroutine-safe
+	if !restart && !cut { // a restarted daemon makes the client re-dial, which is documented as not goroutine-safe
 		nshare = r.Intn(nlog)
 		if nshare == 1 {
 			nshare = 2
@@ -561,11 +665,12 @@ func runLong(c *mon.Case, restart bool) {
 		pick  int
 		yield int
 		stem  string
+		cut   bool // mode cut: lose the next reply that travels back
 	}
 	plans := make([][]planned, nlog)
 	for i := range plans {
 		for j := 0; j < per; j++ {
-			p := planned{pick: r.Intn(1 << 20), yield: r.Intn(3), stem: stems[r.Intn(len(stems))]}
+			p := planned{pick: r.Intn(1 << 20), yield: r.Intn(3), stem: stems[r.Intn(len(stems))], cut: cut && r.Intn(30) == 0}
 			switch k := r.Intn(100); {
 			case k < 50:
 				p.kind = 0
@@ -595,7 +700,7 @@ func runLong(c *mon.Case, restart bool) {
 	for i := 0; i < nlog; i++ {
 		lc := &longClient{id: i + 1, own: i >= nshare}
 		if lc.own {
-			lc.cl = daemon.NewClient(sock)
+			lc.cl = daemon.NewClient(clientSock)
 		} else {
 			lc.cl = shared
 			sharedWg.Add(1)
@@ -615,9 +720,12 @@ func runLong(c *mon.Case, restart bool) {
 			for j, p := range plan {
 				jitter(p.yield)
 				progress.Add(1)
-				if failed { // daemon is down: do not burn through the script
+				if failed && restart { // daemon is down: do not burn through the script
 					time.Sleep(2 * time.Millisecond)
-					failed = false
+				}
+				failed = false
+				if p.cut {
+					px.armed.Store(1)
 				}
 				switch p.kind {
 				case 0:
@@ -705,7 +813,10 @@ func runLong(c *mon.Case, restart bool) {
 			keeper.Version() // reconnect the keeper so that the new daemon stays up
 		}
 	}
-	wg.Wait()
+	if !waitClients(c, &wg, srv, 300*time.Second) {
+		srv.wait()
+		return
+	}
 	if shared != nil {
 		sharedWg.Wait()
 		shared.Close()
@@ -725,9 +836,9 @@ func runLong(c *mon.Case, restart bool) {
 		return
 	}
 	recs := h.recs
-	ph := "long"
-	if restart {
-		ph = "restart"
+	ph := mode
+	if px != nil {
+		c.Count("cut_replies_lost", int(px.cuts.Load()))
 	}
 	c.Evals(len(recs))
 	c.Count(ph+"_ops", len(recs))
@@ -847,7 +958,7 @@ func lastN(s []string, n int) []string {
 func Spec() *mon.Spec {
 	return &mon.Spec{
 		ID: "C26", Level: "exploration", Race: true,
-		Rule: "phase short: one real daemon.Serve (in-process, race detector on) with a fresh database; 2..8 logical clients (the first k share one daemon.NewClient after its first successful request, the others own a connection) run pre-generated scripts of command-history operations (unique AddCmd texts with shared prefixes, DelCmd/Cmd/CmdsWithSeq/NextCmd/PrevCmd with sequence arguments around the live range, NextCmdSeq) with random yields, GOMAXPROCS from {1,2,4,8,16}; every call is recorded with call/return stamps from one atomic logical clock, a sequential prefix and a sequential final listing are part of the history; the <= 80-operation history is decided by porcupine against refstore (operations with transport errors stay open; checker timeout = inconclusive). Phase long: 4..8 clients, 4000 operations, cheap global checks (unique acknowledged seqs, every read shows only acknowledged writes with the right text, per-client monotonic seqs, read-own-write, final listing = acknowledged adds - acknowledged deletes, final counter = 1 + executed adds, sum of directory scores after n concurrent factor-1 visits). Phase restart: the same global checks while the daemon is interrupted and restarted on the same database 2..4 times with requests in flight (own connections only). Non-trivial = short history with at least one pair of time-overlapping mutations by different clients, or a completed long/restart history.",
+		Rule: "phase short: one real daemon.Serve (in-process, race detector on) with a fresh database; 2..8 logical clients (the first k share one daemon.NewClient after its first successful request, the others own a connection) run pre-generated scripts of command-history operations (unique AddCmd texts with shared prefixes, DelCmd/Cmd/CmdsWithSeq/NextCmd/PrevCmd with sequence arguments around the live range, NextCmdSeq) with random yields, GOMAXPROCS from {1,2,4,8,16}; every call is recorded with call/return stamps from one atomic logical clock, a sequential prefix and a sequential final listing are part of the history; the <= 80-operation history is decided by porcupine against refstore (operations with transport errors stay open; checker timeout = inconclusive). Phase long: 4..8 clients, 4000 operations, cheap global checks (unique acknowledged seqs, every read shows only acknowledged writes with the right text, per-client monotonic seqs, read-own-write, final listing = acknowledged adds - acknowledged deletes, final counter = 1 + executed adds, sum of directory scores after n concurrent factor-1 visits). Phase restart: the same global checks while the daemon is interrupted and restarted on the same database 2..4 times with requests in flight (own connections only). Phase cut: the same global checks with the clients connected through a forwarding proxy that, at PRNG-chosen operations, drops the next reply travelling back and closes that connection (request executed, reply lost): no command may appear twice. Non-trivial = short history with at least one pair of time-overlapping mutations by different clients, or a completed long/restart history.",
 		Assumptions: []string{
 			"daemon.NewClient is shared between goroutines only after its first successful request (connection creation is documented as deferred and the client is not synchronised); with a restarting daemon no client is shared",
 			"an operation that returns any error other than 'no matching command line' is treated as open (may or may not have taken effect)",
@@ -855,14 +966,15 @@ func Spec() *mon.Spec {
 			"first sequence number of a fresh store is 1 (pkg/store/storetest)",
 		},
 		Phases: []mon.Phase{
-			{Name: "short", Quick: 400, Thorough: 8000, Run: runShort, GoMaxProcs: 4, Timeout: 300 * time.Second},
-			{Name: "long", Quick: 6, Thorough: 100, Run: func(c *mon.Case) { runLong(c, false) }, GoMaxProcs: 8, Batch: 1, Timeout: 600 * time.Second},
-			{Name: "restart", Quick: 6, Thorough: 60, Run: func(c *mon.Case) { runLong(c, true) }, GoMaxProcs: 8, Batch: 1, Timeout: 600 * time.Second},
+			{Name: "short", Quick: 400, Thorough: 5000, Run: runShort, GoMaxProcs: 4, Timeout: 300 * time.Second},
+			{Name: "long", Quick: 6, Thorough: 60, Run: func(c *mon.Case) { runLong(c, "long") }, GoMaxProcs: 8, Batch: 1, Timeout: 600 * time.Second},
+			{Name: "cut", Quick: 6, Thorough: 40, Run: func(c *mon.Case) { runLong(c, "cut") }, GoMaxProcs: 8, Batch: 1, Timeout: 600 * time.Second},
+			{Name: "restart", Quick: 6, Thorough: 40, Run: func(c *mon.Case) { runLong(c, "restart") }, GoMaxProcs: 8, Batch: 1, Timeout: 600 * time.Second},
 		},
 		Floors: map[string]int{
 			"short_linearizable": 100, "short_overlapping_mutation_pairs": 300, "short_histories_with_shared_client": 80,
 			"long_ops": 6000, "long_acked_adds": 3000, "long_dir_visits": 500, "long_histories_with_shared_client": 1,
-			"restart_restarts": 4, "restart_open_ops": 1, "distinct_nontrivial": 80,
+			"restart_restarts": 4, "restart_open_ops": 1, "cut_replies_lost": 40, "cut_acked_adds": 500, "distinct_nontrivial": 80,
 		},
 	}
 }
